@@ -49,3 +49,15 @@ pub open spec fn alloc_state(sizes: Seq<u64>, planned: Seq<u64>, names: Seq<Dest
             || (sizes[i] == 0 && fcontent(fs, names[i].key@).len() == planned[i])
     &&& forall|i: int, j: int| 0 <= i < j < names.len() ==> (#[trigger] names[i]).key@ != (#[trigger] names[j]).key@
 }
+
+// ---- LocalDestination::get_matching_file: which existing file is compared blob by blob (and may be left as it is) ----
+pub struct MetaR { pub is_file: bool, pub len: u64 }
+impl MetaR {
+    pub fn is_file(&self) -> (r: bool) ensures r == self.is_file, { self.is_file }
+    pub fn len(&self) -> (r: u64) ensures r == self.len, { self.len }
+}
+pub struct OpenedFile { pub _opaque: u64 }
+pub struct PathD { pub _opaque: u64 }
+// File::open(&filename).ok()
+#[verifier::external_body]
+pub fn vopen_ok(filename: &PathD) -> Option<OpenedFile> { unimplemented!() }
